@@ -75,3 +75,30 @@ impl VPackIdSet {
     #[verifier::external_body]
     pub fn contains(&self, id: &PackId) -> (r: bool) ensures r == self.s@.contains(*id), { unimplemented!() }
 }
+
+// ---- restore_contents: one (pack, blob) entry of the restore plan becomes one read ----
+pub uninterp spec fn DLEN(bl: BlobLocation) -> u32;   // BlobLocation::data_length (unit of C14)
+pub open spec fn any_matches(fls: Seq<FileLocation>) -> bool { exists|i: int| 0 <= i < fls.len() && (#[trigger] fls[i]).matches }
+// fls.iter().find(|fl| fl.matches).map(|fl| (fl.file_idx, fl.file_start, bl.data_length())): the first location whose
+// destination bytes already are this blob -- it can serve as read source instead of the pack
+#[verifier::external_body]
+pub fn vfirst_matching(fls: &SmallVec<FileLocation>, bl: &BlobLocation) -> (r: Option<(usize, u64, u32)>)
+    ensures
+        r is Some <==> any_matches(fls.v@),
+        r matches Some(x) ==> x.2 == DLEN(*bl) && exists|i: int| 0 <= i < fls.v@.len() && (#[trigger] fls.v@[i]).matches && fls.v@[i].file_idx == x.0 && fls.v@[i].file_start == x.1,
+{ unimplemented!() }
+pub open spec fn non_matching(fls: Seq<FileLocation>) -> Seq<(usize, u64)>
+    decreases fls.len()
+{
+    if fls.len() == 0 { Seq::empty() }
+    else if fls.last().matches { non_matching(fls.drop_last()) }
+    else { non_matching(fls.drop_last()).push((fls.last().file_idx, fls.last().file_start)) }
+}
+// fls.iter().filter(|fl| !fl.matches).map(|fl| (fl.file_idx, fl.file_start)).collect(): every location that still needs the blob
+#[verifier::external_body]
+pub fn vnon_matching_dests(fls: &SmallVec<FileLocation>) -> (r: SmallVec<(usize, u64)>)
+    ensures r.v@ == non_matching(fls.v@),
+{ unimplemented!() }
+// fls.iter().all(|fl| !fl.matches)
+#[verifier::external_body]
+pub fn vnone_matches(fls: &SmallVec<FileLocation>) -> (r: bool) ensures r == !any_matches(fls.v@), { unimplemented!() }
